@@ -306,7 +306,8 @@ def cache_history(rng, n_calls, cfg, readers=False):
         if rng.random() < 0.15:
             steps += [{"a": "flush"}, {"a": "wait_cb"}, {"a": "wait_idle"}, {"a": "drain"}]
             if rng.random() < 0.3:
-                steps.append({"a": "reopen", "cfg": cfg_choices(rng, True)})
+                # (read_buffer_size matters on the scan at open: segments of the records of closed chunks)
+                steps.append({"a": "reopen", "cfg": cfg_choices(rng, True, True)})
     steps += [{"a": "flush"}, {"a": "wait_cb"}, {"a": "wait_idle"}, {"a": "drain"}, {"a": "obs"}]
     return steps
 
